@@ -1,5 +1,8 @@
 import IcyVerif.Lemmas.TermCost
 import IcyVerif.Gen.Loops
+import IcyVerif.Lemmas.RectCost
+import IcyVerif.Lemmas.FontLoad
+import IcyVerif.Lemmas.PalCost
 /-! # C03 — work per input is bounded by screen size, not by numbers in the input
 What is proved (about the TermGeo model of the repaired code, for every parameter value):
 * every parameter-driven loop count of the ANSI parser is bounded by the screen (`*_le` theorems); the table
@@ -11,7 +14,16 @@ What is proved (about the TermGeo model of the repaired code, for every paramete
   (`macro_expansion_bounded`, by a potential argument over nesting depth and expansion budget).
 What the model cannot exhibit (labelled partial): wall-clock time, allocator behaviour, stack size — the oracle run
 of `harness/src/c03.rs` measures those on the real code (time and row growth per token, address-space cap);
-sixel raster/repeat headers, custom-font payloads and binary file headers are oracle-only. -/
+sixel raster/repeat headers and the binary art-file headers are oracle-only.
+Added for the loaders and the rectangle commands:
+* bitmap fonts (`BitFont::from_bytes`, also behind the `CTerm:Font:` DCS): the glyph loop runs at most once per byte of the
+  file and the checksum loop at most max(512, file length) times, whatever height / length / charsize the header declares
+  (`font_loader_cost`); this is proved FROM the zero-height guard found in the source (`font_zero_guard_present`) and fails
+  without it (`font_loop_diverges_without_guard`);
+* palette importers: at most one colour per byte of the file, whatever its count line announces (`palette_colours_le_bytes`);
+* DECRQCRA visits at most width x height cells, DECFRA / DECERA / DECSERA at most width x max(rows present, height),
+  for every parameter list (`rqcra_count_le`, `rect_count_le`); the guard text of the unclamped DECRQCRA loops is part of
+  the loop inventory. -/
 namespace IcyVerif.C03
 open IcyVerif.Term
 
@@ -42,16 +54,16 @@ def knownLoopIds : List Nat := [
   108485408676630,   -- parsers/ansi/mod.rs::print_char::for _ in 0..min(*number, line_len)
   158796941833254,   -- parsers/ansi/mod.rs::print_char::for _ in 0..number [number = min(*number, buf.terminal_state.get_height())]
   271081030219619,   -- parsers/ansi/mod.rs::print_char::(0..num).for_each [num = min(num, buf.terminal_state.get_height())]
-  271081030219619,   -- parsers/ansi/mod.rs::print_char::(0..num).for_each [num = min(num, buf.terminal_state.get_height())]
+  111648938138143,   -- parsers/ansi/mod.rs::print_char::(0..num).for_each [num = min(num, buf.terminal_state.get_height())] #2
   224846332406421,   -- parsers/ansi/mod.rs::print_char::(0..num).for_each [num = min(num, buf.terminal_state.get_width().saturating_mul(buf.terminal_state.get_height()))]
   190528600599645,   -- parsers/ansi/mod.rs::print_char::(0..num).for_each [num = min(num, buf.terminal_state.tab_count() as i32 + 1)]
-  190528600599645,   -- parsers/ansi/mod.rs::print_char::(0..num).for_each [num = min(num, buf.terminal_state.tab_count() as i32 + 1)]
+  51481091594342,   -- parsers/ansi/mod.rs::print_char::(0..num).for_each [num = min(num, buf.terminal_state.tab_count() as i32 + 1)] #2
   281022136991837,   -- parsers/ansi/mod.rs::invoke_macro_by_id::for ch in m.chars()
   237650164376874,   -- parsers/ansi/ansi_commands.rs::select_graphic_rendition::while i < self.parsed_numbers.len()
   41279561738007,   -- parsers/ansi/ansi_commands.rs::scroll_left::(0..num).for_each [num = num.min(buf.terminal_state.get_width())]
   171599094478279,   -- parsers/ansi/ansi_commands.rs::scroll_right::(0..num).for_each [num = num.min(buf.terminal_state.get_width())]
-  166967275305848,   -- parsers/ansi/ansi_commands.rs::request_checksum_of_rectangular_area::for y in pt..pb [pb = self.parsed_numbers[4]]
-  260984335837453,   -- parsers/ansi/ansi_commands.rs::request_checksum_of_rectangular_area::for x in pl..pr [pr = self.parsed_numbers[5]]
+  158480357843142,   -- parsers/ansi/ansi_commands.rs::request_checksum_of_rectangular_area::for y in pt..pb [pb = self.parsed_numbers[4]] {guard: pt > pb || pl > pr || pr > buf.terminal_state.get_width() || pb > buf.terminal_state.get_height() || pl < 0 || pt < 0}
+  38502396119993,   -- parsers/ansi/ansi_commands.rs::request_checksum_of_rectangular_area::for x in pl..pr [pr = self.parsed_numbers[5]] {guard: pt > pb || pl > pr || pr > buf.terminal_state.get_width() || pb > buf.terminal_state.get_height() || pl < 0 || pt < 0}
   114006608205224,   -- parsers/ansi/ansi_commands.rs::request_checksum_of_rectangular_area::for b in ch.attribute.attr.to_be_bytes()
   102835665758988,   -- parsers/ansi/ansi_commands.rs::request_checksum_of_rectangular_area::for b in ch.attribute.get_foreground().to_be_bytes()
   161869610143512,   -- parsers/ansi/ansi_commands.rs::request_checksum_of_rectangular_area::for b in ch.attribute.get_background().to_be_bytes()
@@ -69,7 +81,33 @@ def knownLoopIds : List Nat := [
   25240594281441,   -- parsers/avatar/mod.rs::print_char::for _ in 0..repeat_count [repeat_count = (ch as usize).min(255)]
   279804614731691,   -- terminal_state.rs::reset_tabs::while i < self.get_width()
   151007286748451,   -- terminal_state.rs::next_tab_stop::while i < self.tab_stops.len() && self.tab_stops[i] <= x
-  216312728822047   -- terminal_state.rs::prev_tab_stop::while i >= 0 && self.tab_stops[i as usize] >= x
+  216312728822047,   -- terminal_state.rs::prev_tab_stop::while i >= 0 && self.tab_stops[i as usize] >= x
+  88451286985492,   -- fonts.rs::fmt::for (y, b) in self.data.iter().enumerate()
+  254679739834868,   -- fonts.rs::fmt::for i in 0..8
+  154166043607708,   -- fonts.rs::calculate_checksum::for ch in 0..self.length
+  117889436246693,   -- fonts.rs::calculate_checksum::for b in &glyph.data
+  241381941161933,   -- fonts.rs::convert_to_u8_data::for ch in 0..self.length
+  75843190773516,   -- fonts.rs::to_psf2_bytes::for i in 0..self.length
+  161708487264824,   -- fonts.rs::glyphs_from_u8_data::while data.len() >= font_height
+  207816280897166,   -- palette_handling.rs::load_palette::for (_, [r, g, b]) in HEX_REGEX.captures_iter(&data).map(|c| c.extract())
+  2280331911125,   -- palette_handling.rs::load_palette::for (i, line) in data.lines().enumerate()
+  147256833648363,   -- palette_handling.rs::load_palette::for (_, [r, g, b]) in PAL_REGEX.captures_iter(line).map(|c| c.extract())
+  223769207628979,   -- palette_handling.rs::load_palette::for (i, line) in data.lines().enumerate() #2
+  267398573337281,   -- palette_handling.rs::load_palette::for (i, line) in data.lines().enumerate() #3
+  168223969727977,   -- palette_handling.rs::load_palette::for line in data.lines()
+  160584003017280,   -- palette_handling.rs::export_lines::for c in &self.colors
+  167572473013707,   -- palette_handling.rs::export_lines::for c in &self.colors #2
+  64920024687084,   -- palette_handling.rs::export_lines::for c in &self.colors #3
+  141981017646683,   -- palette_handling.rs::export_lines::for c in &self.colors #4
+  163872262874269,   -- palette_handling.rs::export_lines::for c in &self.colors #5
+  47975782806930,   -- palette_handling.rs::fill_to_16::(self.colors.len()..DOS_DEFAULT_PALETTE.len()).for_each
+  133357773259086,   -- palette_handling.rs::is_default::for i in 0..DOS_DEFAULT_PALETTE.len()
+  51230467820574,   -- palette_handling.rs::insert_color::for i in 0..self.colors.len()
+  84286395416824,   -- palette_handling.rs::from::while o < pal.len()
+  117082274575601,   -- palette_handling.rs::as_vec::for col in &self.colors
+  88909030956191,   -- palette_handling.rs::from_63::while o < pal.len()
+  78149143990703,   -- palette_handling.rs::as_vec_63::for col in &self.colors
+  213368740633849   -- palette_handling.rs::get_checksum::for i in self.old_checksum..self.colors.len()
 ]
 
 /-- the translator's inventory of the current source contains no loop outside the table -/
@@ -178,9 +216,58 @@ theorem stream_steps_bounded (cfg : Cfg) (o : Nat → Orc) : ∀ (cs : List Char
       have : (rest.length + 1) * 65537 = rest.length * 65537 + 65537 := by omega
       omega
 
+/-- the zero-height guard of `glyphs_from_u8_data` is in the source (regenerated flag) -/
+theorem font_zero_guard_present : IcyVerif.Gen.FontPal.glyphZeroGuard = true := by decide
+
+/-- font loaders: whatever the header declares (PSF1 character height 0..255 and mode, PSF2 headersize / length /
+    charsize / height / width up to 2^32 - 1), loading `d` runs the glyph loop at most `|d|` times and the checksum loop at
+    most `max 512 |d|` times — and never panics or diverges on the way (`.ok` / `.err` are the only outcomes) -/
+theorem font_loader_cost (d : List Nat) :
+    (∀ s, IcyVerif.FontLoad.fontFromBytes d.toArray ≠ .panic s) ∧
+    ∀ f, IcyVerif.FontLoad.fontFromBytes d.toArray = .ok f → f.iters ≤ d.length ∧ f.cksum ≤ max 512 d.length := by
+  have h := IcyVerif.FontLoad.fontFromBytes_sat font_zero_guard_present d.toArray
+  refine ⟨h.noPanic, ?_⟩
+  intro f hf
+  rw [hf] at h
+  have h2 : f.iters ≤ d.toArray.size ∧ f.cksum ≤ max 512 d.toArray.size := h
+  simpa using h2
+
+/-- "a PSF1 font header with character height 0 never consumes its data": without the guard the loop does not end -/
+theorem font_loop_diverges_without_guard (hg : IcyVerif.Gen.FontPal.glyphZeroGuard = false) (d : List Nat) :
+    IcyVerif.FontLoad.glyphsFrom 0 d.toArray 0 = .panic IcyVerif.FontLoad.sDiverge :=
+  IcyVerif.FontLoad.glyphsFrom_needs_guard hg d.toArray 0 (Nat.zero_le _)
+
+/-- palette importers: a file of n bytes yields at most n colours in every format — colours are pushed one per regex match
+    (each match consumes at least one character of a line); the JASC / GIMP / ICE / Paint.NET COUNT LINE is never used as
+    a size, whatever number stands there -/
+theorem palette_colours_le_bytes (f : IcyVerif.Palette.Fmt) (d : List Nat) (cs : List IcyVerif.Palette.Rgb)
+    (h : IcyVerif.PalLoad.palLoad f d = .ok cs) : cs.length ≤ d.length := by
+  have h1 := IcyVerif.PalLoad.palLoad_length f d
+  rw [h] at h1
+  exact h1
+
+/-- DECRQCRA (`CSI Pid;Pp;Pt;Pl;Pb;Pr * y`): the checksum loops visit at most width x height cells for every parameter list -/
+theorem rqcra_count_le (nums : List Int) (tw th : Int) : IcyVerif.RectCost.rqcraCount nums tw th ≤ tw.toNat * th.toNat :=
+  IcyVerif.RectCost.rqcraCount_le nums tw th
+
+/-- DECFRA (`off` = 1), DECERA, DECSERA (`off` = 0): at most width x max(rows present, height) cells for every parameter list -/
+theorem rect_count_le (nums : List Int) (off : Nat) (lines tw th : Int) (h1 : 1 ≤ tw) (h2 : 1 ≤ th) :
+    IcyVerif.RectCost.rectCount nums off lines tw th ≤ tw.toNat * (max lines th).toNat :=
+  IcyVerif.RectCost.rectCount_le nums off lines tw th h1 h2
+
+/-- a rectangle parameter is at most `i32::MAX` however many digits it has (own copy of the number model for the
+    rectangle driver) -/
+theorem rect_param_bounded (ds : List Nat) : IcyVerif.RectCost.paramOf ds ≤ 2147483647 := IcyVerif.RectCost.paramOf_le ds
+
 /-- non-vacuity: the table is not empty and the clamps are attained -/
-example : knownLoopIds.length = 52 := by decide
+example : knownLoopIds.length = 78 := by decide
 example : repCount [2147483599] (initScr 132 60) = 7920 := by decide +kernel
 example : tabCount [2147483599] (initScr 80 25) = 11 := by decide +kernel
+example : IcyVerif.RectCost.rqcraCount [1, 1, 0, 0, 25, 80] 80 25 = 2000 := by decide
+example : IcyVerif.RectCost.rqcraCount [1, 1, 0, 0, 2147483599, 80] 80 25 = 0 := by decide
+example : IcyVerif.RectCost.rectCount [2147483599, 0, 2147483599, 2147483599] 0 30 80 25 = 80 := by decide
+example : IcyVerif.RectCost.rectCount [0, 0, 2147483599, 2147483599] 0 30 80 25 = 2400 := by decide
+example : IcyVerif.RectCost.paramOf ("99999999999".toList.map Char.toNat) = 2147483599 := by decide +kernel
+example : IcyVerif.FontLoad.fontFromBytes #[0x36, 0x04, 0, 0, 1, 2, 3] = .ok ⟨8, 0, 256, 0, 0, 256⟩ := by decide
 
 end IcyVerif.C03
